@@ -841,7 +841,8 @@ CORE_THMS = {"module_reduction": ["moduleReduction_eq"], "permute": ["permute_eq
              "data_to_lanes": ["dataToLanes_eq"], "remainder": [f"remainder{n}_eq" for n in range(33)],
              "update_remainder": [f"updateRemainder{n}_eq" for n in range(1, 32)],
              "unordered_load3": [f"unorderedLoad3_{n}_eq" for n in (0, 1, 2, 3, 5, 6, 7)],
-             "checkpoint": [f"checkpoint{n}_eq" for n in range(33)]}
+             "checkpoint": [f"checkpoint{n}_eq" for n in range(33)],
+             "from_checkpoint": [f"fromCheckpoint{n}_eq" for n in range(32)]}
 
 
 def core_translation(res, tier, seed, workdir, stats, pid="C01", only=None):
@@ -849,7 +850,8 @@ def core_translation(res, tier, seed, workdir, stats, pid="C01", only=None):
     module_reduction, permute, zipper_merge_and_add, update, update_lanes, the key schedule of new, the round counts /
     output expressions of finalize64/128/256, data_to_lanes, remainder (every length 0..=32), update_remainder (every
     pending length 1..=31, through HashPacket::len / as_slice of src/internal.rs), checkpoint (every pending length
-    0..=32: all 164 bytes as expressions of the symbolic lanes and buffer bytes) and unordered_load3
+    0..=32: all 164 bytes as expressions of the symbolic lanes and buffer bytes), from_checkpoint (164 symbolic bytes, one
+    instance per value 0..=31 of the clamped count, under the hypothesis that the clamp has that value) and unordered_load3
     from the CURRENT src/portable.rs + src/internal.rs into Lean (HH/Generated/PortableCore.lean), and
     each translation is proved equal to the hand-written model for all inputs (by `rfl`: the model mirrors the source).
     Advisory by construction: a function the translator cannot handle any more is 'not translated'; a translated
@@ -973,7 +975,7 @@ _c01_cross = mk_cross("C01", gen_cross_c01, ["s390x", "i686"])
 
 
 def special_c01(res, tier, seed, workdir, stats):
-    core_translation(res, tier, seed, workdir, stats, only=[k for k in CORE_THMS if k != "checkpoint"])
+    core_translation(res, tier, seed, workdir, stats, only=[k for k in CORE_THMS if k not in ("checkpoint", "from_checkpoint")])
     _c01_cross(res, tier, seed, workdir, stats)
 
 
@@ -1042,6 +1044,15 @@ def special_c05(res, tier, seed, workdir, stats):
     _c05_cross(res, tier, seed, workdir, stats)
 
 
+_c11_cross = mk_cross("C11", gen_cross_c11, ["s390x", "i686"])
+
+
+def special_c11(res, tier, seed, workdir, stats):
+    # from_checkpoint on 164 symbolic bytes, one instance per value of the clamped pending count, equals the model's decoder
+    core_translation(res, tier, seed, workdir, stats, pid="C11", only=["from_checkpoint"])
+    _c11_cross(res, tier, seed, workdir, stats)
+
+
 _c14_cross = mk_cross("C14", gen_cross_c14)
 
 
@@ -1053,5 +1064,5 @@ def special_c14(res, tier, seed, workdir, stats):
 
 T.SPECIAL.update({"C02": simd_translation, "C01": special_c01, "C05": special_c05, "C06": mk_cross("C06", gen_cross_c06),
                   "C07": special_c07, "C12": mk_cross("C12", gen_cross_c12),
-                  "C11": mk_cross("C11", gen_cross_c11, ["s390x", "i686"]), "C13": mk_cross("C13", gen_cross_c13), "C14": special_c14})
+                  "C11": special_c11, "C13": mk_cross("C13", gen_cross_c13), "C14": special_c14})
 T.SPECIAL.update({"C15": special_c15, "C09": special_c09, "C03": special_c03, "C04": special_c04, "C08": special_c08, "C16": special_c16, "C17": special_c17, "C18": special_c18})
